@@ -260,6 +260,7 @@ def run(P, R, tier):
     errview_rule(P, R)
     growbail_rule(P, R)
     usedump_rule(P, R)
+    ssparams_rule(P, R)
     immediate_rule(P, R)
     strparam_rule(P, R)
     gfwout_rule(P, R)
@@ -1879,6 +1880,10 @@ def samehint_rule(P, R):
                     "through master[i]->unknown == NULL for an element the kept model lacks" % (hints[0][1], loops[0][1]), file=f["file"], line=hints[0][1], function=f["q"])
 
 
+# accessors of the stored entities that run OUTSIDE a simulation (GetComponentCount / GetComponent): same obligation as step.cpp
+PHASELOOKUP_ACCESSORS = ("Phreeqc::list_GasComponents", "Phreeqc::list_SolidSolutions", "Phreeqc::list_EquilibriumPhases", "Phreeqc::list_components")
+
+
 def phaselookup_rule(P, R):
     """"never a crash": the reactants of an instance outlive the simulation that defined them - also a simulation that stopped because a
     block names a phase the database does not have.  The functions of a reaction step (step.cpp) look the phase of every component up
@@ -1886,10 +1891,10 @@ def phaselookup_rule(P, R):
     dereference (an `if` that mentions the pointer itself, not a member reached through it); the guards added stop the run with "Phase not
     found in database".  Census of step.cpp."""
     RULE = "C08.phaselookup"
-    R.rule(RULE, "step.cpp: a pointer returned by phase_bsearch is null-tested before its first dereference", minimum=8)
+    R.rule(RULE, "step.cpp and the component-list accessors: a pointer returned by phase_bsearch is null-tested before its first dereference", minimum=10)
     n = 0
     for f in sorted(P.functions.values(), key=lambda g: (g["file"], g["line"])):
-        if not f.get("body") or not f["file"].endswith("step.cpp"):
+        if not f.get("body") or not (f["file"].endswith("step.cpp") or f["q"] in PHASELOOKUP_ACCESSORS):
             continue
         defs = []
         for x in T.walk(f["body"]):
@@ -1915,8 +1920,8 @@ def phaselookup_rule(P, R):
             else:
                 R.violation(RULE, inst, "`%s` = phase_bsearch(...) (line %d) is dereferenced at line %d without a null test: a reactant kept from a definition that failed on an "
                             "unknown phase crashes the host process when it is used" % (var, line, derefs[0]), file=f["file"], line=derefs[0], function=f["q"])
-    if n < 8:
-        R.anchor_missing(RULE, "only %d phase_bsearch results found in step.cpp" % n)
+    if n < 10:
+        R.anchor_missing(RULE, "only %d phase_bsearch results found in step.cpp and the list_* accessors" % n)
 
 
 def shiftdir_rule(P, R):
@@ -2529,3 +2534,42 @@ def immediate_rule(P, R):
                             % (m, y[2].split("::")[-1], y[1], m, m), file=g["file"], line=y[1], function=g["q"])
     if n_inst < 30:
         R.anchor_missing(RULE, "only %d dereferences of stmtline / linebase / dataline in PBasic (36 confirmed)" % n_inst)
+
+
+def ssparams_rule(P, R):
+    """read_solid_solutions stores as many parameters as the option line held and reports a wrong count with CONTINUE; tidy runs before
+    the input-error stop.  ss_calc_a0_a1 copies the vector into `p` and subscripts it with literals: before the first subscript the
+    function guarantees the length (a resize to, or a size test against, at least the largest literal subscript + 1)."""
+    RULE = "C08.ssparams"
+    R.rule(RULE, "ss_calc_a0_a1: the parameter vector is brought to the length its literal subscripts need before the first subscript", minimum=1)
+    f = P.one("Phreeqc::ss_calc_a0_a1")
+    subs = []
+    for y in T.walk(f["body"]):
+        if y[0] == "Call" and T.callee_name(y) == "operator[]" and len(y[4]) >= 2 and T.text(y[4][0], -40) == "p":
+            v = T.lit_value(T.strip_casts(y[4][1]))
+            if v is not None:
+                subs.append((y[1], int(v)))
+    if len(subs) < 10:
+        R.anchor_missing(RULE, "only %d literal subscripts of p in ss_calc_a0_a1" % len(subs))
+        return
+    first = min(l for l, v in subs)
+    need = max(v for l, v in subs) + 1
+    ok = None
+    for y in T.walk(f["body"]):
+        if y[1] > first:
+            continue
+        if y[0] == "Call" and T.callee_name(y) in ("resize", "assign") and T.call_obj(y) is not None and T.text(T.call_obj(y), -40) == "p" and y[4]:
+            v = T.lit_value(T.strip_casts(y[4][0]))
+            if v is not None and v >= need:
+                ok = "p.%s(%d) at line %d" % (T.callee_name(y), v, y[1])
+        if y[0] == "If" and any(k[0] in ("Return", "Throw") for k in T.walk(y[3])):
+            for b in T.walk(y[2]):
+                if b[0] == "Bin" and b[2] in ("<", "<=", "!=") and "p.size()" in T.text(b[3], -40).replace("this.", ""):
+                    v = T.lit_value(T.strip_casts(b[4]))
+                    if v is not None and v >= need - (1 if b[2] == "<=" else 0):
+                        ok = "size test at line %d leaves the function" % y[1]
+    if ok:
+        R.ok(RULE, "p[0..%d]" % (need - 1), "%s; %d literal subscripts from line %d" % (ok, len(subs), first))
+    else:
+        R.violation(RULE, "p[0..%d]" % (need - 1), "ss_calc_a0_a1 subscripts its copy of the parameter vector up to p[%d] (first at line %d) without bringing it to that length: "
+                    "`-miscibility_gap` without numbers is reported with CONTINUE and crashes here" % (need - 1, first), file=f["file"], line=first, function=f["q"])
